@@ -19,6 +19,7 @@ type StreamCase struct {
 	Count   *CountCase  `json:"count,omitempty"`
 	ChanCap int         `json:"chancap"`
 	Delays  []int       `json:"delays"` // microseconds slept by the consumer after the i-th receive
+	Pre     []int       `json:"pre,omitempty"` // opt: the solver is first solved, then given this clause with AppendClause, then optimised
 }
 
 func genStreamCase(r *Rng, tier string) StreamCase {
@@ -31,6 +32,9 @@ func genStreamCase(r *Rng, tier string) StreamCase {
 	case 0:
 		o := genOptCase(r, tier)
 		c.Kind, c.Opt = "opt", &o
+		if n := maxVarConstrs(o.Constrs); n > 0 && r.Chance(1, 4) { // a live solver: solved, extended, then optimised
+			c.Pre = randClauseDistinct(r, n, r.Range(1, min2(n, 3)))
+		}
 	case 1:
 		m := genMaxSatWCNF(r, tier)
 		c.Kind, c.MaxSat = "maxsat", &m
@@ -44,7 +48,7 @@ func genStreamCase(r *Rng, tier string) StreamCase {
 func init() {
 	register(&Prop{
 		ID: "C20",
-		Rule: "optimisation (Solver.Optimal on constraint sets with a cost function of either sign), MaxSAT (ParseWCNF(...).Optimal) and enumeration (Solver.Enumerate) problems as for C03/C04/C05, each observed through a result channel of capacity 0,1,2,4 or 16 whose consumer sleeps 0..2000 microseconds after each of its first 0..6 receives. Checked: every delivered result is a model with its true cost (verified evaluation), costs strictly decrease, the last delivered result equals the returned one, the channel is closed when the call returns, enumeration delivers each model once; a deadlock or a send on a closed channel shows as a time-out or a crash of the worker. Non-trivial = at least 2 values delivered; distinct = distinct (problem, capacity, delays).",
+		Rule: "optimisation (Solver.Optimal on constraint sets with a cost function of either sign; in a quarter of the cases on a solver that was first solved and then given one more clause), MaxSAT (ParseWCNF(...).Optimal) and enumeration (Solver.Enumerate) problems as for C03/C04/C05, each observed through a result channel of capacity 0,1,2,4 or 16 whose consumer sleeps 0..2000 microseconds after each of its first 0..6 receives. Checked: every delivered result is a model with its true cost (verified evaluation), costs strictly decrease, the last delivered result equals the returned one, the channel is closed when the call returns, enumeration delivers each model once; a deadlock or a send on a closed channel shows as a time-out or a crash of the worker. Non-trivial = at least 2 values delivered; distinct = distinct (problem, capacity, delays).",
 		Gens:    []Gen{{Name: "stream", Weight: 1, Make: func(r *Rng, tier string) interface{} { return genStreamCase(r, tier) }}},
 		Run:     runStreamCase,
 		Cases:   defCases(3000, 80000),
@@ -68,7 +72,18 @@ func runStreamCase(o *Oracle, d json.RawMessage, oc *Outcome) {
 		sem := semAll(c.Opt.Constrs)
 		n := maxVarConstrs(c.Opt.Constrs)
 		coefs, lits := c.Opt.costTerms()
-		s := solver.New(c.Opt.problem())
+		pb := c.Opt.problem()
+		s := solver.New(pb)
+		if len(c.Pre) > 0 && pb.Status != solver.Unsat {
+			oc.Tag("solved-extended-then-optimised")
+			s.Solve()
+			ls := make([]solver.Lit, len(c.Pre))
+			for i, l := range c.Pre {
+				ls[i] = solver.IntToLit(int32(l))
+			}
+			s.AppendClause(solver.NewClause(ls))
+			sem = append(sem, clauseLin(c.Pre))
+		}
 		r := runOptimal(s, c.ChanCap, c.Delays)
 		checkStream(o, oc, "solver.Optimal", r, n, sem, coefs, lits)
 		if len(r.stream) >= 2 {
